@@ -180,3 +180,23 @@ Proof.
 Qed.
 
 Print Assumptions c01_no_panic_tsig.
+
+(* Regression for the arithmetic finish_signed_ok2 pins down (the seeded defect "signed_len forgets the 6 octets of
+   BADTIME other data"): HMAC-SHA256, root key name, no question, BADTIME: the record takes 1 + 10 + 13 + 16 + 32 + 6
+   = 78 octets.  On an 84-octet buffer a state whose reserved_len is 72 (the 6 octets forgotten) makes finish_signed
+   PANIC (add_rr(..).unwrap()); the real set_tsig_signed (reserved_len 78) refuses that buffer instead: Truncation. *)
+Definition c01_ex_alg : MsgWriter.wname := [[104;109;97;99;45;115;104;97;50;53;54]%N].
+Definition c01_ex_time : bytes := [0;0;101;83;241;0]%N.
+Example c01_signed_len_without_other_data_refuted :
+  match MsgWriter.writer_new (repeat 0%N 84) 84 with
+  | Ok w =>
+    is_panic (finish_signed c01_ex_hmac TsigMsg.HmacSha256 [] []
+                (MsgWriter.set_tsig_f (MsgWriter.set_avail (MsgWriter.set_counts w 0 0 0 1) (MsgWriter.w_avail w - 72))
+                   (Some (MsgWriter.mkTsig c01_ex_alg 72 [] c01_ex_time 300 7 18 c01_ex_time)))) = true /\
+    match set_tsig_signed 32 c01_ex_alg [] c01_ex_time 300 7 18 c01_ex_time w with
+    | Err (MsgWriter.Truncation, _) => True
+    | _ => False
+    end
+  | _ => False
+  end.
+Proof. vm_compute. auto. Qed.
